@@ -221,12 +221,28 @@ def _norm_run(data):
 def run_batch(prog):
     global FAILSTOP
     events = []
+    shared = None          # programs with several calls use ONE ParameterList, edited between the calls with add/remove_parameter
     for op in prog:
         _, grid, reps, limit, two, procs, failstop = op
         FAILSTOP = failstop
-        params = {n: list(v) for n, v in grid}
-        if len(events) % 2:
-            params = ParameterList(params)
+        if len(prog) > 1:
+            if shared is None:
+                shared = ParameterList({n: list(v) for n, v in grid})
+                declared = [n for n, _ in grid]
+            else:
+                want = [n for n, _ in grid]
+                for n in [x for x in declared if x not in want]:
+                    shared.remove_parameter(n)
+                for n, v in grid:
+                    if n not in declared:
+                        shared.add_parameter(n, list(v))
+                declared = [n for n in declared if n in want] + [n for n in want if n not in declared]
+                grid = [[n, dict((a, b) for a, b in grid)[n]] for n in declared]     # declaration order of the shared list
+            params = shared
+        else:
+            params = {n: list(v) for n, v in grid}
+            if procs % 2 == 0:
+                params = ParameterList(params)
         exc = None
         res = []
         try:
@@ -260,6 +276,36 @@ def random_batch_program(rng, procs_choices, fail=None):
     return [["batch_run", grid, reps, limit, rng.random() < 0.4, rng.choice(procs_choices), failstop]]
 
 
+def empty_batch_programs(procs_choices):
+    """Batches without any execution: an empty value list in the grid, or zero repetitions, for every process count."""
+    out = []
+    for procs in procs_choices:
+        out.append([["batch_run", [["stop", [1, 2]], ["d", []]], 1, BIG, False, procs, -1]])
+        out.append([["batch_run", [["stop", []]], 2, 3, True, procs, -1]])
+        out.append([["batch_run", [["stop", [1, 2]], ["d", [0]]], 0, BIG, False, procs, -1]])
+    return out
+
+
+def reused_list_programs(rng, procs_choices, n):
+    """2-4 batch runs on ONE ParameterList; parameters are added / removed between the runs (the values of a name never change)."""
+    vals = {"stop": [1, 3], "cstart": [0, 1], "cfreq": [1, 2], "d": [0, 2]}
+    out = []
+    for _ in range(n):
+        names = rng.sample(sorted(vals), rng.randint(1, 3))
+        prog = []
+        for _ in range(rng.randint(2, 4)):
+            prog.append(["batch_run", [[x, vals[x]] for x in names], rng.choice([1, 2]), rng.choice([2, 4, BIG]), False,
+                         rng.choice(procs_choices), -1])
+            if rng.random() < 0.6 and len(names) > 1:
+                names = [x for x in names if x != rng.choice(names)]
+            else:
+                extra = [x for x in sorted(vals) if x not in names]
+                if extra:
+                    names = names + [rng.choice(extra)]
+        out.append(prog)
+    return out
+
+
 def fail_position_programs(procs_choices):
     """A failing execution at every position of a 4-task batch (one combination per position, reps = 1), each process count."""
     out = []
@@ -273,6 +319,7 @@ def fail_position_programs(procs_choices):
 # ------------------------------------------------------------------------------------------------ C16
 TABLE = {}
 COUNT = {}
+SLOW_FIRST = False
 SCALE = "1"
 SCALES = {"1": 1, "q": 0.25, "big": 2 ** 61, "qoff": 0.25}
 OFFSETS = {"qoff": float(2 ** 40)}      # large magnitude, small spread: only used with the (shift-invariant) variance modes
@@ -286,6 +333,8 @@ class SearchModel(Model):
     def __init__(self, x=0, y=0):
         super().__init__()
         self.key = (x, y)
+        if SLOW_FIRST and x == 0 and y == 0:
+            time.sleep(0.05)              # the first grid point finishes last: completion order differs from grid order
         self.rep = COUNT.get(self.key, 0)
         COUNT[self.key] = self.rep + 1
         if (x + y) % 2:
@@ -306,7 +355,7 @@ def _exact_int(fr):
 
 
 def run_search(prog):
-    global TABLE, COUNT, SCALE
+    global TABLE, COUNT, SCALE, SLOW_FIRST
     events = []
     shared = None
     for op in prog:
@@ -318,6 +367,7 @@ def run_search(prog):
         TABLE = {(k.get("x", 0), k.get("y", 0)): list(table[i]) for i, k in enumerate(keys)}
         COUNT = {}
         SCALE = scale
+        SLOW_FIRST = procs > 1
         sc = SCALES[scale]
         n = reps
         K = 16 * n * (n - 1) if n > 1 else 16
